@@ -2,6 +2,7 @@
   Proofs/ReopenMain.lean — reopen preserves the refinement invariant (C04, compaction-free histories).
 -/
 import Nervus.Proofs.ReopenSim
+import Nervus.Proofs.NodeTable
 namespace Nervus.Storage
 open Nervus.GraphSpec (Graph TxOp Op)
 
@@ -101,7 +102,8 @@ theorem reopen_rec {s : Engine} (hR : Rec s)
   have hopen : s.reopen = .ok s' := by
     unfold Engine.reopen Engine.open
     have e1 : replayCommitted s.disk.wal none [] = .ok txs := hb.parse
-    have e3 : replayGraph txs s.ckptTxid (IdMap.load s.disk.i2e) = .ok (m', R) := hRg
+    have e3 : replayGraph txs s.ckptTxid (IdMap.load (IdMap.readNodeTable s.disk.i2e)) = .ok (m', R) := by
+      rw [IdMap.readNodeTable_eq]; exact hRg
     have e4 : (List.map (fun x => x.id) s.segs).mapM (findSeg s.disk.segStore) = .ok s.segs := hfind
     simp only [e1, hl, sc1, sc2, sc3, sc4, e3, e4, bind, Except.bind, pure, Except.pure]
     rfl
